@@ -166,8 +166,11 @@ class SxGen:
         if c < 0.72:
             return {"k": "pow", "b": self.expr(depth - 1), "e": num(r.choice([2, 3, -1, -2, 4]))}
         if c < 0.80:   # variable / symbolic / fractional exponent (no integer shift, see ser.py)
+            # exponents: constants, fields, fractions, and function-free expressions of the coordinates
             e = r.choice([self.const(), self.fld(), num(1, 2), num(3, 2),
-                          {"k": "mul", "a": [self.const(), self.const()]}])
+                          {"k": "mul", "a": [self.const(), self.const()]},
+                          self.coord(), {"k": "mul", "a": [self.const(), self.coord()]},
+                          {"k": "mul", "a": [self.coord(), self.coord()]}])
             # the base is never a bare (possibly negative) number: (-2)**(1/2) is not a real expression
             b = r.choice([self.fld(), {"k": "add", "a": [self.fld(), self.coord(), num(r.choice([1, 2, 3]))]},
                           {"k": "mul", "a": [self.fld(), self.fld()]}])
